@@ -365,6 +365,39 @@ def a9(repo, res, canon):
             (f.name == 'finish_observation' and isinstance(n.op, ast.Sub)))
         (res.ok if ok else res.bad)('C08.A9', f, n, what, 'ok' if ok else
                                     'telescope_use is changed by something other than +demand at begin / -demand at finish')
+    # telescope_status is the derived flag (telescope_use != 0): True next to += demand,
+    # False only when the use has dropped to 0.  Observation.is_finished needs it True.
+    from ..norm import Logic, Lit
+    logic = Logic(canon)
+    nst = 0
+    for f in repo.all_functions():
+        fr = Frame(f)
+        for n in walk_no_nested(f.node):
+            if isinstance(n, ast.Assign) and any(isinstance(t, ast.Attribute) and t.attr == 'telescope_status'
+                                                 and canon.c(t, fr) == 'Instrument.telescope_status' for t in n.targets):
+                v = canon.c(n.value, fr)
+                what = '`%s` in %s' % (short(ast.unparse(n)), f.qual)
+                if f.name == '__init__':
+                    continue
+                nst += 1
+                if v == 'True':
+                    ok = f.name == 'begin_observation'
+                    (res.ok if ok else res.bad)('C08.A9', f, n, what, 'ok' if ok else 'telescope_status set outside begin_observation')
+                elif v == 'False':
+                    ok = True
+                    for p in cached_paths(f):
+                        for i, e in enumerate(p.events):
+                            if e.node is n:
+                                must = path_must(logic, p, i)
+                                if Lit('0 == %s' % USE, True) not in must and Lit('truthy(%s)' % USE, False) not in must:
+                                    ok = False
+                    (res.ok if ok else res.bad)(
+                        'C08.A9', f, n, what, 'under telescope_use == 0' if ok else
+                        'the telescope is marked not-in-use while arrays may still be held by another observation: '
+                        'Observation.is_finished requires the flag, so an overlapping observation is never marked '
+                        'FINISHED, never frees its arrays, and the simulation cannot terminate')
+                else:
+                    res.bad('C08.A9', f, n, what, 'telescope_status set to %s' % v)
     names = {f.name for f, n in ws}
     for need in ('begin_observation', 'finish_observation'):
         if need not in names:
